@@ -84,7 +84,7 @@ VARIANTS = [
     V('send-signal-after', 'C13', ['P2c', 'C13map'], [E(MQ, """        if signal.has_action() {
             let disconnected = self.handle_signals(signal);
             if disconnected {
-                return Err(TrySendError::Full(val));
+                return Err(TrySendError::Disconnected(val));
             }
         }
         let val = match""", """        if signal.has_action() {
@@ -319,4 +319,139 @@ VARIANTS = [
             match self.queue.try_recv(&self.reader) {
                 Ok(v) => return Ok(v),
                 Err((_, TryRecvError::Disconnected)) => return Err(RecvError),""")], kind='refactor'),
+
+    # ---------------------------------------------------------------- waiting / waking
+    V('senddrop-no-notify', 'C07', ['P8'], [E(MQ, """        self.queue.manager.remove_token(self.token);
+        self.queue.waiter.notify();
+    }""", """        self.queue.manager.remove_token(self.token);
+    }""")]),
+    V('senddrop-notify-guarded', 'C08', ['P8'], [E(MQ, """        self.queue.manager.remove_token(self.token);
+        self.queue.waiter.notify();
+    }""", """        self.queue.manager.remove_token(self.token);
+        if self.queue.needs_notify && self.queue.writers.load(Relaxed) > 0 {
+            self.queue.waiter.notify();
+        }
+    }""")]),
+    V('senddrop-no-dec', 'C07', ['P8'], [E(MQ, """        self.queue.writers.fetch_sub(1, SeqCst);
+        fence(SeqCst);
+        self.queue.manager.remove_token(self.token);""", """        fence(SeqCst);
+        self.queue.manager.remove_token(self.token);""")]),
+    V('blocking-notify-one', 'C08', ['P7a'], [E(WAIT, "self.condvar.notify_all();", "self.condvar.notify_one();")]),
+    V('blocking-check-outside-lock', 'C08', ['P7b'], [E(WAIT, """            {
+                let mut lock = self.lock.lock();
+                if check(seq, w_pos, wc) {
+                    return;
+                }
+                self.condvar.wait(&mut lock);
+            }""", """            if check(seq, w_pos, wc) {
+                return;
+            }
+            {
+                let mut lock = self.lock.lock();
+                self.condvar.wait(&mut lock);
+            }""")]),
+    V('blocking-notify-no-lock', 'C08', ['P7b'], [E(WAIT, """        let _lock = self.lock.lock();
+        self.condvar.notify_all();""", """        self.condvar.notify_all();""")]),
+    V('blocking-needs-notify-false', 'C08', ['P7a'], [E(WAIT, """        let _lock = self.lock.lock();
+        self.condvar.notify_all();
+    }
+
+    fn needs_notify(&self) -> bool {
+        true
+    }""", """        let _lock = self.lock.lock();
+        self.condvar.notify_all();
+    }
+
+    fn needs_notify(&self) -> bool {
+        false
+    }""")]),
+    V('recv-empty-ends', 'C07', ['P6b'], [E(MQ, """                Err((_, TryRecvError::Disconnected)) => return Err(RecvError),
+                Err((pt, TryRecvError::Empty)) => {
+                    let count = self.reader.load_count(Relaxed);
+                    unsafe {
+                        self.queue.waiter.wait(count, &*pt, &self.queue.writers);
+                    }
+                }""", """                Err((_, TryRecvError::Disconnected)) => return Err(RecvError),
+                Err((pt, TryRecvError::Empty)) => {
+                    let count = self.reader.load_count(Relaxed);
+                    if count == usize::MAX - 7 {
+                        return Err(RecvError);
+                    }
+                    unsafe {
+                        self.queue.waiter.wait(count, &*pt, &self.queue.writers);
+                    }
+                }""")]),
+    V('poll-empty-is-none', 'C07', ['P6b'], [E(MQ, """                Err((_, TryRecvError::Disconnected)) => return Ok(Async::Ready(None)),
+                Err((pt, _)) => {
+                    let count = self.reader.reader.load_count(Relaxed);
+                    if unsafe { self.wait.fut_wait(count, &*pt, &self.reader.queue.writers) } {
+                        return Ok(Async::NotReady);
+                    }
+                }""", """                Err((_, TryRecvError::Disconnected)) => return Ok(Async::Ready(None)),
+                Err((pt, _)) => {
+                    let count = self.reader.reader.load_count(Relaxed);
+                    if unsafe { self.wait.fut_wait(count, &*pt, &self.reader.queue.writers) } {
+                        return Ok(Async::NotReady);
+                    }
+                    if self.reader.queue.writers.load(Relaxed) == 0 {
+                        return Ok(Async::Ready(None));
+                    }
+                }""")]),
+    V('park-push-before-check', 'C14', ['P7c'], [E(MQ, """        let mut parked = self.parked.lock();
+        if check(seq, at, wc) {
+            return false;
+        }
+        parked.push_back(current());
+        true""", """        if check(seq, at, wc) {
+            return false;
+        }
+        let mut parked = self.parked.lock();
+        parked.push_back(current());
+        true""")]),
+    V('futwait-true-without-park', 'C14', ['P7d'], [E(MQ, """        if self.spin(seq, at, wc) && self.park(seq, at, wc) {
+            ::std::thread::sleep(::std::time::Duration::from_millis(100));
+            true
+        } else {
+            false
+        }""", """        if self.spin(seq, at, wc) {
+            let _ = self.park(seq, at, wc);
+            true
+        } else {
+            false
+        }""")]),
+    V('send-or-park-unlocked-attempt', 'C14', ['P7c'], [E(MQ, """        let mut parked = self.parked.lock();
+        match f(val) {
+            Err(TrySendError::Full(v)) => {
+                parked.push_back(current());
+                Err(TrySendError::Full(v))
+            }
+            v => v,
+        }""", """        match f(val) {
+            Err(TrySendError::Full(v)) => {
+                let mut parked = self.parked.lock();
+                parked.push_back(current());
+                Err(TrySendError::Full(v))
+            }
+            v => v,
+        }""")]),
+    V('futnotify-partial-drain', 'C14', ['P7c'], [E(MQ, """    fn notify_all(&self) {
+        let mut parked = self.parked.lock();
+        for val in parked.drain(..) {
+            val.notify();
+        }
+    }""", """    fn notify_all(&self) {
+        let mut parked = self.parked.lock();
+        for val in parked.drain(..1) {
+            val.notify();
+        }
+    }""")]),
+    V('rf-blocking-notify-explicit-drop', None, [], [E(WAIT, """        let _lock = self.lock.lock();
+        self.condvar.notify_all();""", """        let guard = self.lock.lock();
+        self.condvar.notify_all();
+        drop(guard);""")], kind='refactor'),
+    V('rf-senddrop-notify-first-stmt-order', None, [], [E(MQ, """        self.queue.manager.remove_token(self.token);
+        self.queue.waiter.notify();
+    }""", """        self.queue.waiter.notify();
+        self.queue.manager.remove_token(self.token);
+    }""")], kind='refactor'),
 ]
